@@ -20,6 +20,7 @@ import Blue.Proofs.SstHeadline
 import Blue.Proofs.ConstsTieC10
 import Blue.Proofs.Sbbf
 import Blue.Proofs.SbbfSst
+import Blue.Proofs.SstSetsum
 /-! # Property C10 — an SST or block returns exactly what was put in, under every cursor movement
 
 Property theorems only (helper lemmas live in `Blue/Proofs/{Wire,EntryCodec,Block,BlockRestarts,
@@ -61,7 +62,17 @@ hypotheses and without the sealed-state parameter),
 (`BlockCursor`'s restart logic composed into the table cursor, with the interval ≥ 1 hypothesis),
 a multi-entry-block non-vacuity instance of the whole round trip, and an interval-0 instance on
 which the `BlockCursor` machine and the reference machine differ.  Theorems that only unfold a
-definition of the model are labelled **model fact**. -/
+definition of the model are labelled **model fact**.
+
+The setsum clause of the metadata (section SstSetsum at the end, `Blue/Model/SstSetsum.lean`,
+`Blue/Proofs/SstSetsum.lean`): the 32 bytes `seal` stores are modelled as the builder computes them
+(`Setsum::default()`, one `insert_vectored` of `[[8], key, ts_le, value]` / `[[9], key, ts_le]` per
+accepted entry, `digest()`), and `metadata_setsum_is_sum_of_accepted` shows that `metadata()` of
+the opened file returns the digest of the C14 group sum of exactly the accepted entries' items, in
+any order, refused attempts adding nothing.  SHA3-256 stays a parameter (`hash`: hasher input →
+eight `u32` words, as in C14); that the real builder's digest equals this value for SHA3-256 is the
+harness comparison (each table setsum recomputed through `sst::Setsum::{put, del}` and through the
+published definition).  The framing of puts is not injective (`setsum_put_framing_not_injective`). -/
 namespace Blue.Props.C10
 open Blue.Wire Blue.EntryCodec Blue.Block Blue.BlockCursor Blue.Cursor Blue.Sst Blue.SstOpen
 
@@ -318,7 +329,8 @@ theorem sst_load_spec (t : Table) (hne : ∀ blk ∈ t.blocks, blk ≠ []) (hs :
     `_partial`: the blocks are taken from the builder's output list, not re-read from the file image
     through the index entries' `(start, limit, crc32c)` (`Sst::load_block`); that step, the final
     block and the packed metadata are compared byte-for-byte by the correspondence; the bloom filter
-    bytes and the setsum digest are parameters. -/
+    bytes and the setsum digest are parameters (here; `sst_load_with_filter` and
+    `metadata_setsum_is_sum_of_accepted` compute them as the builder does). -/
 theorem sst_builder_refines_partial (o : SstOpts) (atts : List KV) (c : CBuilder) (sf : SB)
     (hcur : (SB.putAll o SB.init atts).2.cur = some c)
     (hf : (SB.putAll o SB.init atts).2.flush o
@@ -355,8 +367,11 @@ theorem sst_builder_refines_partial (o : SstOpts) (atts : List KV) (c : CBuilder
       every call what the reference cursor over the accepted entries shows,
     * `load(k, ts)` is `loadSpec` (newest version of `k` not newer than `ts`, tombstone, absent:
       `load_spec_is_newest`),
-    * `metadata()` = (the setsum *parameter* handed to `seal` — not computed from the entries in
-      this model: that it is the setsum of the accepted entries is the harness's comparison —,
+    * `metadata()` = (the setsum *parameter* handed to `seal` — in THIS statement any 32 bytes;
+      `metadata_setsum_is_sum_of_accepted` (section SstSetsum below) instantiates it with the
+      digest the builder computes, `sealSetsum`, and shows it is the digest of the C14 group sum
+      of the framed accepted entries, SHA3-256 being a parameter; that the real builder's digest
+      is that value with `hash` = SHA3-256 is the harness's comparison —,
       first and last accepted key, the final block's
       smallest / biggest timestamp — which `metadata_exact` shows are those of the accepted
       entries —, the length of the file),
@@ -376,7 +391,8 @@ theorem sst_builder_refines_partial (o : SstOpts) (atts : List KV) (c : CBuilder
       keys, values and filter handed to the builder are byte strings).  No other property of the checksum is used.
     * `filter` — the bloom filter block's bytes: of the length `Filter::new` gives for the number
       of accepted entries (`hfilter`); `Sst::load` is modelled under "no false negatives".
-    * `setsum` — the digest handed to `seal`: 32 bytes (`hsetsum`).
+    * `setsum` — the digest handed to `seal`: 32 bytes (`hsetsum`; discharged for the builder's own
+      digest by `seal_setsum_length`, and the parameter removed in `metadata_setsum_is_sum_of_accepted`).
     * the file is shorter than 2^64 bytes (`hsize`); timestamps are `u64` (`hts`); `Wf` / `Fits` as in
       `sst_builder_refines_partial`: fields fit the wire types and the restart offsets fit `u32`.
       These are *hypotheses* of this statement; all four (`hwfE`, `hwfD`, `hfitE`, `hfitD`) follow
@@ -992,6 +1008,186 @@ example : (sealFilter (fun k => k.length) 17 SB.init).check 3 = false := by deci
 
 end Bloom
 
+-- BEGIN SstSetsum
+/-! ## the setsum clause of the metadata
+
+`SstBuilder::put` / `del` call `self.setsum.put(key, timestamp, value)` / `self.setsum.del(key,
+timestamp)` after the entry is in the block, and `seal` writes `builder.setsum.digest()` into the
+final block.  `Blue/Model/SstSetsum.lean` has the framing of sst/src/setsum.rs (`entryPieces`:
+`[[8], key, timestamp.to_le_bytes(), value]` for a put, `[[9], key, timestamp.to_le_bytes()]` for
+a tombstone), the item of an entry in the C14 group (`entryItem`), the builder's accumulator
+(`builderSetsum`: `Setsum::default()`, one `insert_vectored` per accepted entry) and the 32 bytes
+`seal` stores (`sealSetsum`).  SHA3-256 is a parameter, as in C14: `hash` maps the bytes fed to
+the hasher to the eight little-endian 32-bit words of the hash, and every statement holds for
+EVERY such function (`hW`: its values are `u32` words).  That the real builder's digest is this
+value with `hash` = SHA3-256 is the harness comparison (every table setsum recomputed through
+`sst::Setsum::{put, del}` and through the published definition). -/
+section SstSetsum
+open Blue.SstSetsum
+
+/-- NEW: a put and a tombstone are never the same item (marker piece `[8]` / `[9]`), for any keys,
+    timestamps and value -/
+theorem put_del_distinct_pieces (k k' : List Nat) (t t' : Nat) (v : List Nat) :
+    entryPieces ⟨k, t, some v⟩ ≠ entryPieces ⟨k', t', none⟩
+    ∧ entryBytes ⟨k, t, some v⟩ ≠ entryBytes ⟨k', t', none⟩
+    ∧ (entryPieces ⟨k, t, some v⟩).head? = some [8] ∧ (entryPieces ⟨k', t', none⟩).head? = some [9] :=
+  Blue.SstSetsum.put_del_distinct_pieces k k' t t' v
+
+/-- NEW: what IS injective about the framing (`u64` timestamps): tombstones among themselves, and
+    puts whose keys have the same length -/
+theorem setsum_framing_injective_part :
+    (∀ (k k' : List Nat) (t t' : Nat), t < U64 → t' < U64 →
+        entryBytes ⟨k, t, none⟩ = entryBytes ⟨k', t', none⟩ → k = k' ∧ t = t')
+    ∧ (∀ (k k' : List Nat) (t t' : Nat) (v v' : List Nat), t < U64 → t' < U64 → k.length = k'.length →
+        entryBytes ⟨k, t, some v⟩ = entryBytes ⟨k', t', some v'⟩ → k = k' ∧ t = t' ∧ v = v') :=
+  ⟨fun _ _ _ _ ht ht' h => del_framing_injective ht ht' h,
+   fun _ _ _ _ _ _ ht ht' hl h => put_framing_injective_same_key_length ht ht' hl h⟩
+
+/-- NEW: what is NOT (DESIGN, "entry framing is not injective"): no piece is length-prefixed, so two
+    puts are the same item exactly when `key ‖ ts_le ‖ value` is the same byte string; the put of
+    `k` collides with the put of a longer key `k ‖ x` iff `ts_le ‖ value = x ‖ ts'_le ‖ value'`;
+    and a concrete pair of different entries with one item: `put("", 1, [0])`, `put([1], 0, "")`
+    (both hash the ten bytes `08 01 00 00 00 00 00 00 00 00`) -/
+theorem setsum_put_framing_not_injective :
+    (∀ (k k' : List Nat) (t t' : Nat) (v v' : List Nat),
+        entryBytes ⟨k, t, some v⟩ = entryBytes ⟨k', t', some v'⟩ ↔ k ++ le64 t ++ v = k' ++ le64 t' ++ v')
+    ∧ (∀ (k x : List Nat) (t t' : Nat) (v v' : List Nat),
+        entryBytes ⟨k, t, some v⟩ = entryBytes ⟨k ++ x, t', some v'⟩ ↔ le64 t ++ v = x ++ (le64 t' ++ v'))
+    ∧ ((⟨[], 1, some [0]⟩ : KV) ≠ ⟨[1], 0, some []⟩
+        ∧ entryBytes ⟨[], 1, some [0]⟩ = entryBytes ⟨[1], 0, some []⟩
+        ∧ (entryPieces ⟨[], 1, some [0]⟩).flatten = [8, 1, 0, 0, 0, 0, 0, 0, 0, 0]) :=
+  ⟨put_framing_collision_iff, put_framing_collision_family, put_framing_not_injective⟩
+
+/-- NEW: the 32 bytes `seal` stores meet what the file round-trip theorems ask of their setsum
+    parameter (`hsetsum`), and are bytes -/
+theorem seal_setsum_length (hash : List Nat → Vector Nat 8) (s : SB) :
+    (sealSetsum hash s).length = 32 ∧ ∀ b ∈ sealSetsum hash s, b < 256 :=
+  Blue.SstSetsum.seal_setsum_length hash s
+
+/-- NEW: the builder's accumulator (a left fold of `insert_vectored` from `Setsum::default()`) is
+    the C14 group sum of the entries' items, is canonical, and is the same for every order of the
+    calls -/
+theorem builder_setsum_is_item_sum (hash : List Nat → Vector Nat 8) (hW : ∀ bs, Blue.Setsum.Words (hash bs))
+    (es : List KV) :
+    builderSetsum hash es = itemSum hash es
+    ∧ builderSetsum hash es = Blue.Setsum.ofItems (es.map (entryWords hash))
+    ∧ Blue.Setsum.Canonical (builderSetsum hash es)
+    ∧ ∀ ys : List KV, es.Perm ys → builderSetsum hash es = builderSetsum hash ys :=
+  ⟨builderSetsum_eq_itemSum hW es, builderSetsum_eq_ofItems hash es, builderSetsum_canonical hW es,
+   fun _ p => builderSetsum_perm hW p⟩
+
+/-- NEW: **the setsum clause.**  Feed any attempts to `SstBuilder`; `seal` writes the filter block
+    and the setsum it computes itself (`sealFilter`, `sealSetsum`: neither is a parameter, no
+    `hsetsum` / `hfilter` hypothesis); open the file image.  The table opens and `metadata()`
+    returns, as its setsum, the digest of `Σ_{e ∈ accepted} entryItem hash e` in the C14 group
+    (first / last key, timestamps and size as in `sst_file_roundtrip_limits`); the group element is
+    canonical and `Setsum::from_digest` of the stored bytes is that element; the entries in any
+    other order give the same 32 bytes; column `i` is the sum of the accepted entries' `i`-th hash
+    words modulo the `i`-th prime (the published definition); and `accepted` is the list of
+    attempts answered `Ok`, so a refused attempt contributes nothing. -/
+theorem metadata_setsum_is_sum_of_accepted (hash : List Nat → Vector Nat 8)
+    (hW : ∀ bs, Blue.Setsum.Words (hash bs))
+    (h : List Nat → Nat) (o : SstOpts) (atts : List KV) (f : SstFile)
+    (hseal : (SB.putAll o SB.init atts).2.seal o
+        (Blue.Sbbf.sealFilter h o.bloomBits (SB.putAll o SB.init atts).2).toBytes
+        (sealSetsum hash (SB.putAll o SB.init atts).2) = .ok f)
+    (hts : ∀ e ∈ atts, e.ts ≤ U64MAX)
+    (hsize : f.bytes.length < U64)
+    (hbE : ∀ e ∈ atts, KVBytes e) :
+    ∃ t, openSst crc32c f.bytes = .ok t
+      ∧ t.metadata crc32c = .ok
+          ⟨Blue.Setsum.digest (itemSum hash (SB.putAll o SB.init atts).2.accepted),
+           (match (SB.putAll o SB.init atts).2.accepted.head? with | some e => e.key | none => []),
+           (match (SB.putAll o SB.init atts).2.accepted.getLast? with | some e => e.key | none => MAX_KEY),
+           f.fin.smallest, f.fin.biggest, f.bytes.length⟩
+      ∧ f.fin.setsum = Blue.Setsum.digest (itemSum hash (SB.putAll o SB.init atts).2.accepted)
+      ∧ Blue.Setsum.Canonical (itemSum hash (SB.putAll o SB.init atts).2.accepted)
+      ∧ Blue.Setsum.fromDigest f.fin.setsum = some (itemSum hash (SB.putAll o SB.init atts).2.accepted)
+      ∧ (∀ ys : List KV, ys.Perm (SB.putAll o SB.init atts).2.accepted →
+          Blue.Setsum.digest (itemSum hash ys) = f.fin.setsum)
+      ∧ (∀ (i : Nat) (hi : i < 8), (itemSum hash (SB.putAll o SB.init atts).2.accepted)[i]
+          = (((SB.putAll o SB.init atts).2.accepted.map (entryWords hash)).map (fun w => w[i])).sum
+              % Blue.Setsum.primes[i])
+      ∧ (SB.putAll o SB.init atts).2.accepted = acceptedOfB (SB.putAll o SB.init atts).1 atts :=
+  Blue.SstSetsum.metadata_setsum_is_sum_of_accepted hash hW h o atts f hseal hts hsize hbE
+
+/-- NEW: the setsum of a table whose entries are those of two other tables (in any order) is the
+    sum of their setsums — on the stored digests: `from_digest` of the two, `+`, `digest()` -/
+theorem setsum_of_concat_files (hash : List Nat → Vector Nat 8) (hW : ∀ bs, Blue.Setsum.Words (hash bs))
+    (s sx sy : SB) (hacc : s.accepted.Perm (sx.accepted ++ sy.accepted)) :
+    ∃ a b, Blue.Setsum.fromDigest (sealSetsum hash sx) = some a ∧ Blue.Setsum.fromDigest (sealSetsum hash sy) = some b
+      ∧ a = itemSum hash sx.accepted ∧ b = itemSum hash sy.accepted
+      ∧ sealSetsum hash s = Blue.Setsum.digest (Blue.Setsum.add a b) :=
+  Blue.SstSetsum.setsum_of_concat_files hW s sx sy hacc
+
+/-- NEW: `Σ inputs = Σ outputs` (what C04 / C05 use): the sum over entries is additive over `++`,
+    and whenever the output tables' entries are a permutation of the input tables' entries (the
+    pieces of any cut of the merged inputs: C05 `pipeline_conserves_entries`) the group sum of the
+    outputs' setsums is the group sum of the inputs' setsums -/
+theorem compaction_setsum_conserved (hash : List Nat → Vector Nat 8) (hW : ∀ bs, Blue.Setsum.Words (hash bs)) :
+    (∀ xs ys : List KV, itemSum hash (xs ++ ys) = Blue.Setsum.add (itemSum hash xs) (itemSum hash ys))
+    ∧ (∀ tables : List (List KV), tablesSum hash tables = itemSum hash tables.flatten)
+    ∧ (∀ ins outs : List (List KV), outs.flatten.Perm ins.flatten → tablesSum hash outs = tablesSum hash ins) :=
+  ⟨itemSum_append hW, tablesSum_eq_flatten hW, fun ins outs hp => Blue.SstSetsum.compaction_setsum_conserved hW ins outs hp⟩
+
+/-- NEW: 32 hash bytes read as `hash_to_state` reads them (eight little-endian `u32`) meet `hW`: for a
+    byte-valued hash `H`, `fun bs => wordsOfHashBytes (H bs)` is an admissible `hash` -/
+theorem hash_bytes_are_words (d : List Nat) (hd : ∀ b ∈ d, b < 256) : Blue.Setsum.Words (wordsOfHashBytes d) :=
+  wordsOfHashBytes_words d hd
+
+/-! non-vacuity: four attempts — a put, a tombstone of the same key, an out-of-order put (refused),
+    a put — with a toy hash (`toyHash`: positional folds of the bytes, one multiplier per column) -/
+def setsumAtts : List KV := [⟨[97], 9, some [1]⟩, ⟨[97], 8, none⟩, ⟨[96], 1, some []⟩, ⟨[98], 5, some [3]⟩]
+def setsumAcc : List KV := [⟨[97], 9, some [1]⟩, ⟨[97], 8, none⟩, ⟨[98], 5, some [3]⟩]
+
+example : ∀ bs, Blue.Setsum.Words (toyHash bs) := toyHash_words
+example : (SB.putAll multiOpts SB.init setsumAtts).2.accepted = setsumAcc
+    ∧ (SB.putAll multiOpts SB.init setsumAtts).1 = [none, none, some (.put .sortOrder), none] := by decide +kernel
+example : setsumAcc.map entryPieces
+    = [[[8], [97], [9, 0, 0, 0, 0, 0, 0, 0], [1]], [[9], [97], [8, 0, 0, 0, 0, 0, 0, 0]],
+       [[8], [98], [5, 0, 0, 0, 0, 0, 0, 0], [3]]] := by decide
+/-- the stored bytes, evaluated; the same in another order; the refused attempt would have changed them -/
+example : sealSetsum toyHash (SB.putAll multiOpts SB.init setsumAtts).2
+      = Blue.Setsum.digest (itemSum toyHash setsumAcc)
+    ∧ Blue.Setsum.digest (itemSum toyHash setsumAcc) = Blue.Setsum.digest (itemSum toyHash setsumAcc.reverse)
+    ∧ Blue.Setsum.digest (itemSum toyHash setsumAcc) ≠ Blue.Setsum.digest (itemSum toyHash setsumAtts)
+    ∧ Blue.Setsum.digest (itemSum toyHash setsumAcc) ≠ Blue.Setsum.digest Blue.Setsum.zero := by decide +kernel
+
+/-- every hypothesis of `metadata_setsum_is_sum_of_accepted` holds on the instance (bloom hash: the
+    key's length, as in the filter instance above), and its conclusion is instantiated -/
+theorem setsum_instance :
+    ∃ f t, (SB.putAll multiOpts SB.init setsumAtts).2.seal multiOpts
+          (Blue.Sbbf.sealFilter (fun k => k.length) multiOpts.bloomBits (SB.putAll multiOpts SB.init setsumAtts).2).toBytes
+          (sealSetsum toyHash (SB.putAll multiOpts SB.init setsumAtts).2) = .ok f
+      ∧ openSst crc32c f.bytes = .ok t
+      ∧ (t.metadata crc32c).toOption.map (·.setsum) = some (Blue.Setsum.digest (itemSum toyHash setsumAcc))
+      ∧ Blue.Setsum.fromDigest f.fin.setsum = some (itemSum toyHash setsumAcc) := by
+  have hchk : (match (SB.putAll multiOpts SB.init setsumAtts).2.seal multiOpts
+          (Blue.Sbbf.sealFilter (fun k => k.length) multiOpts.bloomBits (SB.putAll multiOpts SB.init setsumAtts).2).toBytes
+          (sealSetsum toyHash (SB.putAll multiOpts SB.init setsumAtts).2) with
+      | .ok f => decide (f.bytes.length < U64) | .error _ => false) = true := by decide +kernel
+  cases hf : (SB.putAll multiOpts SB.init setsumAtts).2.seal multiOpts
+          (Blue.Sbbf.sealFilter (fun k => k.length) multiOpts.bloomBits (SB.putAll multiOpts SB.init setsumAtts).2).toBytes
+          (sealSetsum toyHash (SB.putAll multiOpts SB.init setsumAtts).2) with
+  | error e => rw [hf] at hchk; cases hchk
+  | ok f =>
+    rw [hf] at hchk
+    have hsize : f.bytes.length < U64 := by simpa using hchk
+    have hts : ∀ e ∈ setsumAtts, e.ts ≤ U64MAX := by decide
+    have hacc : (SB.putAll multiOpts SB.init setsumAtts).2.accepted = setsumAcc := by decide +kernel
+    have hbE : ∀ e ∈ setsumAtts, KVBytes e := by
+      intro e he
+      simp only [setsumAtts, List.mem_cons, List.mem_nil_iff, or_false] at he
+      rcases he with rfl | rfl | rfl | rfl <;>
+        (refine ⟨by unfold Bytes; decide, ?_⟩; intro v hv; cases hv <;> (unfold Bytes; decide))
+    obtain ⟨t, ho, hm, _, _, hfd, _⟩ := Blue.Props.C10.metadata_setsum_is_sum_of_accepted toyHash toyHash_words
+      (fun k => k.length) multiOpts setsumAtts f hf hts hsize hbE
+    rw [hacc] at hm hfd
+    exact ⟨f, t, rfl, ho, by rw [hm]; rfl, hfd⟩
+
+end SstSetsum
+-- END SstSetsum
+
 end Blue.Props.C10
 
 #print axioms Blue.Props.C10.limits_from_source
@@ -1050,3 +1246,13 @@ end Blue.Props.C10
 #print axioms Blue.Props.C10.sst_load_with_filter
 #print axioms Blue.Props.C10.bloom_filter_block_fits
 #print axioms Blue.Props.C10.bloom_constants_from_source
+#print axioms Blue.Props.C10.put_del_distinct_pieces
+#print axioms Blue.Props.C10.setsum_framing_injective_part
+#print axioms Blue.Props.C10.setsum_put_framing_not_injective
+#print axioms Blue.Props.C10.seal_setsum_length
+#print axioms Blue.Props.C10.builder_setsum_is_item_sum
+#print axioms Blue.Props.C10.metadata_setsum_is_sum_of_accepted
+#print axioms Blue.Props.C10.setsum_of_concat_files
+#print axioms Blue.Props.C10.compaction_setsum_conserved
+#print axioms Blue.Props.C10.hash_bytes_are_words
+#print axioms Blue.Props.C10.setsum_instance
